@@ -228,16 +228,21 @@ func HandlersString() []string {
 
 // Budget bounds how many stuck waits per signature are decided by the full
 // quiescence window in one process; later ones of the same signature are
-// decided by a short settle window (they only add to a count: the violation has
-// already been established by the full window on an earlier case).
+// decided by shorter windows (4 identical all-parked samples over 0.6 s, after
+// five of those 3 samples over 0.1 s). They only add to a count: the violation
+// has already been established by the full window on an earlier case, and a
+// replay of any single case always uses the full window.
 type Budget struct {
-	mu   sync.Mutex
-	full map[string]int
-	Max  int
+	mu    sync.Mutex
+	full  map[string]int
+	short map[string]int
+	Max   int
 }
 
 // NewBudget returns a budget of max full-window verdicts per signature.
-func NewBudget(max int) *Budget { return &Budget{full: map[string]int{}, Max: max} }
+func NewBudget(max int) *Budget {
+	return &Budget{full: map[string]int{}, short: map[string]int{}, Max: max}
+}
 
 // Result of Budget.Await.
 type Result struct {
@@ -251,7 +256,12 @@ type Result struct {
 func (b *Budget) Await(sig string, cond func() bool, activity func() string) Result {
 	b.mu.Lock()
 	n := b.full[sig]
+	short := b.short[sig]
 	b.mu.Unlock()
+	need, step := 4, 150*time.Millisecond
+	if short >= 5 {
+		need, step = 3, 40*time.Millisecond
+	}
 	if n >= b.Max {
 		// The full window has already produced Max verdicts for this
 		// signature in this process: use a short window to keep the run
@@ -265,10 +275,13 @@ func (b *Budget) Await(sig string, cond func() bool, activity func() string) Res
 			fp, blocked := vh.Fingerprint(activity)
 			if blocked && fp == last {
 				same++
-				if same >= 4 {
+				if same >= need {
 					if cond() {
 						return Result{Outcome: vh.Happened}
 					}
+					b.mu.Lock()
+					b.short[sig]++
+					b.mu.Unlock()
 					return Result{Outcome: vh.Stuck, Witness: fp, Short: true}
 				}
 			} else {
@@ -277,7 +290,7 @@ func (b *Budget) Await(sig string, cond func() bool, activity func() string) Res
 					same = 0
 				}
 			}
-			end := time.Now().Add(150 * time.Millisecond)
+			end := time.Now().Add(step)
 			for time.Now().Before(end) {
 				if cond() {
 					return Result{Outcome: vh.Happened}
